@@ -268,6 +268,26 @@ def run(case):
                         cts = np.maximum(cts, tresca(F))
                     sva, svb = np.asarray(sva2, float), np.asarray(svb2, float)
                 nh += 1
+        # the optional regularisation argument of the model (default 1e-6) given explicitly, in both back ends: twins agree
+        # and the argument reaches the uniaxial law (the result differs from the default's)
+        for eps_ in (1e-2, 1e-4):
+            a2 = C.tensortrax.Material(C.tensortrax.models.lagrange.morph_representative_directions, p=pm, nstatevars=nsv, **{"ε": eps_})
+            b2 = CJ.Material(CJ.models.lagrange.morph_representative_directions, p=pm, nstatevars=nsv, **{"ε": eps_})
+            for hist in itertools.permutations(amps, 2):
+                sva, svb, svd = np.zeros((nsv, 3, 1)), np.zeros((nsv, 3, 1)), np.zeros((nsv, 3, 1))
+                for step, amp in enumerate(hist):
+                    F = eye + amp * H
+                    (Pa, sva2), (Pb, svb2) = a2.gradient([F, sva]), b2.gradient([F, svb])
+                    Pd, svd2 = b.gradient([F, svd])
+                    c.trans += 3
+                    if step == 1:
+                        lab = f"eps={eps_}/history=" + ">".join(map(str, hist))
+                        c.cmp(lab + "/stress", "stress of the tensortrax and the jax model with the optional regularisation argument given", Pa, Pb, 1e-6)
+                        c.cmp(lab + "/elasticity", "elasticity of the twins with the optional regularisation argument given", a2.hessian([F, sva])[0], b2.hessian([F, svb])[0], 1e-6)
+                        if eps_ == 1e-2 and np.abs(np.asarray(Pb, float) - np.asarray(Pd, float)).max() < 1e-6 * np.abs(np.asarray(Pd, float)).max():
+                            c.bad(lab + "/argument-ignored/jax", "the optional regularisation argument has no effect on the jax model", float(np.abs(np.asarray(Pb, float) - np.asarray(Pd, float)).max()), "> 0")
+                    sva, svb, svd = np.asarray(sva2, float), np.asarray(svb2, float), np.asarray(svd2, float)
+                nh += 1
         c.outcomes.add(f"histories={nh}")
         return c.result(dict(case=case["key"], histories=nh, points=3))
     if kind == "handnh":
